@@ -81,29 +81,59 @@ attribute [local simp] gwSend'_eq
 
 /-! ### the sleep buffer: release loop and the outgoing handlers -/
 
-theorem forEach_flushList (l : List (Key × Msg)) :
-    (Lit.forEach l fun kb =>
-      seq (gwSend kb.2 false)
-        (bind (Lit.sbufHolds kb.1 kb.2) fun c => if c then Lit.sbufPop kb.1 else pure ())) = flushList l := by
+/-- One iteration of the release loop, as the model has it: write the held command, then drop the entry if it is
+still the one that was written. -/
+def flushStep (kb : Key × Msg) : M Unit :=
+  seq (gwSend kb.2 Gen.bufFlush)
+    (modifySt fun s => if s.sbuf.get? kb.1 = some kb.2 then { s with sbuf := s.sbuf.erase kb.1 } else s)
+
+theorem forEach_flushStep (l : List (Key × Msg)) : Lit.forEach l flushStep = flushList l := by
   induction l with
   | nil => rfl
   | cons x xs ih =>
     obtain ⟨k, bm⟩ := x
-    simp only [Lit.forEach, flushList, ih]
+    simp only [Lit.forEach, flushList, ih, flushStep]
     funext w
-    simp only [M.seq, M.bind, Gen.bufFlush]
-    obtain ⟨r, w'⟩ := gwSend bm false w
+    simp only [M.seq, M.bind]
+    obtain ⟨r, w'⟩ := gwSend bm Gen.bufFlush w
+    cases r <;> rfl
+
+/-- `_handle_sleep_buffer` in whatever spelling: a snapshot of the entries selected by `P`, a loop over it with body `B`,
+the message returned.  It is the model's `flush` as soon as `P` selects the woken node's entries and one iteration is
+`flushStep` (both shown pointwise below, so the operands of the comparison, the polarity of the test and `continue`
+versus a nested `if` do not matter). -/
+theorem flush_of (m : Msg) (P : Key × Msg → Bool) (B : Key × Msg → M Unit)
+    (hP : ∀ kb, P kb = (kb.2.node == m.node)) (hB : ∀ kb, B kb = flushStep kb) :
+    (bind (Lit.sbufSnapshot P) fun l => seq (Lit.forEach l B) (pure m)) = flush m := by
+  have hP' : P = fun e => e.2.node == m.node := funext hP
+  have hB' : B = flushStep := funext hB
+  subst hP' hB'
+  funext w
+  simp only [flush, Lit.sbufSnapshot, forEach_flushStep]
+  simp
+
+theorem sleepBuffer20_eq : GenBodies.sleepBuffer20 = flush := by
+  funext m
+  unfold GenBodies.sleepBuffer20
+  refine flush_of m _ _ ?_ ?_
+  · intro kb
+    first
+      | rfl
+      | exact BEq.comm
+      | (by_cases h : m.node = kb.2.node
+         · simp [h]
+         · have h' : ¬ kb.2.node = m.node := fun e => h e.symm
+           simp [h, h'])
+  · intro kb
+    funext w
+    simp only [flushStep, M.seq, M.bind, gwSend'_eq, Gen.bufFlush]
+    obtain ⟨r, w'⟩ := gwSend kb.2 false w
     cases r with
     | error e => rfl
     | ok u =>
-      by_cases h : w'.st.sbuf.get? k = some bm
+      by_cases h : w'.st.sbuf.get? kb.1 = some kb.2
       · simp [h]
       · simp [h]
-
-theorem sleepBuffer20_eq : GenBodies.sleepBuffer20 = flush := by
-  funext m w
-  simp only [GenBodies.sleepBuffer20, flush, Lit.sbufSnapshot, gwSend'_eq, forEach_flushList]
-  simp
 
 attribute [local simp] sleepBuffer20_eq
 
